@@ -8,9 +8,11 @@ import (
 	"flag"
 	"fmt"
 	"os"
+	"runtime"
 	"sort"
 	"strings"
 	"sync"
+	"time"
 
 	"github.com/mit-pdos/go-nfsd/fh"
 	"github.com/mit-pdos/go-nfsd/fstxn"
@@ -74,7 +76,10 @@ type crashOp struct {
 
 // crashWorkload issues the operations of one workload; when rec != nil their
 // trace positions are recorded, otherwise the tree is dumped after every operation.
-func crashWorkload(seed uint64, mix string, nops int, disksz uint64, unstable bool, rec *RecDisk) (ops []crashOp, dumps []string, s *seqRun) {
+// noiseHook: set once the observer of a noise workload is installed; the refusing clients register their goroutines with it
+var noiseHook func()
+
+func crashWorkload(seed uint64, mix string, nops int, disksz uint64, unstable bool, rec *RecDisk, noise bool) (ops []crashOp, dumps []string, s *seqRun) {
 	r := NewRng(seed)
 	s = &seqRun{r: r, unstable: unstable, objs: map[string]*objInfo{}, dirs: map[string]*dirInfo{}, hist: map[string]int{},
 		opTimeout: 30e9, deadH: map[string]bool{}, issued: map[string]bool{}}
@@ -91,6 +96,68 @@ func crashWorkload(seed uint64, mix string, nops int, disksz uint64, unstable bo
 	s.objs[hx(root)] = &objInfo{fh: root, kind: 2}
 	s.dirs[hx(root)] = &dirInfo{names: map[string][]byte{}}
 	dumps = append(dumps, s.dumpTree())
+	var tripleH []byte
+	if noise {
+		// other clients whose requests the journal refuses (a SYMLINK whose target does not fit
+		// into the log), each in a directory of its own so that they share no lock with the client
+		// under test: they fail, change nothing and write nothing, so every reference state is the
+		// same — but whatever the journal does when it refuses a transaction must not cost an
+		// acknowledged operation of somebody else its durability.  Several of them: one is then
+		// likely to be queued on the journal's lock whenever the client under test commits.
+		stop := make(chan bool)
+		var wg sync.WaitGroup
+		big := make([]byte, 600*4096)
+		for i := range big {
+			big[i] = 'n'
+		}
+		srv := s.srv
+		for g := 0; g < 4; g++ {
+			dn := fmt.Sprintf("zz-refused-%d", g)
+			dh := s.mk("mkdir", root, dn)
+			if dh == nil {
+				continue
+			}
+			wg.Add(1)
+			go func(dh []byte) {
+				defer wg.Done()
+				for noiseHook == nil {
+					runtime.Gosched()
+				}
+				noiseHook()
+				for {
+					select {
+					case <-stop:
+						return
+					default:
+					}
+					func() {
+						defer func() { recover() }()
+						srv.NFSPROC3_SYMLINK(nfstypes.SYMLINK3args{Where: nfstypes.Diropargs3{Dir: mkfh3(dh), Name: "big"},
+							Symlink: nfstypes.Symlinkdata3{Symlink_data: nfstypes.Nfspath3(big)}})
+					}()
+				}
+			}(append([]byte(nil), dh...))
+		}
+		// the schedule is perturbed where the hooks allow it: after the journal has taken a
+		// transaction of the client under test ("commit-done") the client pauses briefly, so
+		// that the refused requests fall between the steps of its commit
+		var noiseGids sync.Map
+		prev := fstxn.VerifObserver
+		fstxn.VerifObserver = func(kind string, op *fstxn.FsTxn, arg uint64) {
+			if prev != nil {
+				prev(kind, op, arg)
+			}
+			if kind == "commit-done" {
+				if _, isNoise := noiseGids.Load(curGid()); !isNoise {
+					time.Sleep(300 * time.Microsecond)
+				}
+			}
+		}
+		noiseStarted := func() { noiseGids.Store(curGid(), true) }
+		noiseHook = noiseStarted
+		defer func() { close(stop); wg.Wait(); fstxn.VerifObserver = prev; noiseHook = nil }()
+		dumps[0] = s.dumpTree()
+	}
 	for i := 0; i < nops && !s.dead; i++ {
 		start := 0
 		if rec != nil {
@@ -100,7 +167,23 @@ func crashWorkload(seed uint64, mix string, nops int, disksz uint64, unstable bo
 		stableReq := true
 		switch mix {
 		case "data": // C07: interleavings of UNSTABLE / DATA_SYNC / FILE_SYNC writes, COMMITs and metadata operations
-			stableReq = s.dataOp()
+			// directed, every twelfth operation: an unstable write, then a request the journal
+			// REFUSES (it fails and changes nothing), then COMMIT — which must still make the
+			// write durable.  Three operations, each with its own reference state.
+			if i%12 == 9 && s.objs[hx(s.pickFileLive())].kind == 1 {
+				tripleH = s.pickFileLive()
+				s.opWrite(tripleH, uint64(r.Intn(3))*2000, 1000, 0, s.mkData(1000))
+				stableReq = !s.unstable
+			} else if i%12 == 10 && tripleH != nil {
+				s.opCreate("symlink", s.root(), "too-big-for-the-log", 0, pat('n', 600*4096))
+				stableReq = true
+			} else if i%12 == 11 && tripleH != nil {
+				s.opCommit(tripleH, 0, 0)
+				tripleH = nil
+				stableReq = true
+			} else {
+				stableReq = s.dataOp()
+			}
 		case "free": // C05: build a file too large to free in one transaction, then free it while other work goes on
 			stableReq = s.freeOp(i)
 		default:
@@ -272,8 +355,16 @@ func (s *seqRun) dataOp() bool {
 		h := s.pickFileLive()
 		sz := uint64(r.Intn(12000))
 		s.opSetattr(h, &sz, timeHow{}, timeHow{})
-	case k < 96:
+	case k < 94:
 		s.opRename(s.root(), s.pickName(s.root()), s.root(), s.shortName())
+	case k < 98:
+		// a request the journal refuses (its transaction does not fit into the log): it fails and
+		// changes nothing, and what was acknowledged before it must still be made durable by the
+		// next COMMIT or stable operation (fix 0fea8f5: the journal forgets its flush position)
+		s.opCreate("symlink", s.root(), "too-big-for-the-log", 0, pat('n', 600*4096))
+		if s.r.Chance(2, 3) {
+			s.opCommit(s.pickFileLive(), 0, 0)
+		}
 	default:
 		s.opRemove("remove", s.root(), s.pickName(s.root()))
 	}
@@ -434,6 +525,7 @@ func cmdCrash(fs *flag.FlagSet, args []string) {
 	imgPath := fs.String("imgout", "", "file the images of the recovered logical disks go to (structure checker)")
 	onlySeed := fs.Uint64("wseed", 0, "replay: run only the workload with this seed")
 	onlyUnstable := fs.Bool("wunstable", true, "replay: the unstable option of that workload")
+	wnoise := fs.Bool("wnoise", false, "replay: run the workload next to a client whose requests the journal refuses")
 	fromP := fs.Int("from", 0, "replay: only crash points >= from")
 	toP := fs.Int("to", 1<<30, "replay: only crash points <= to")
 	fs.Parse(args)
@@ -460,7 +552,12 @@ func cmdCrash(fs *flag.FlagSet, args []string) {
 		}
 		// the recorded run, with the reference state dumped after every operation
 		rec := NewRecDisk(*disksz)
-		ops, dumps, sb := crashWorkload(wseed, *mix, *nops, *disksz, unstable, rec)
+		noise := w%2 == 1 && *onlySeed == 0 || *wnoise
+		mixd := *mix
+		if noise {
+			mixd += "+refused-noise"
+		}
+		ops, dumps, sb := crashWorkload(wseed, *mix, *nops, *disksz, unstable, rec, noise)
 		sb.waitIdle()
 		sb.srv.VerifFsState().Txn.Flush()
 		endPos := rec.pos()
@@ -484,7 +581,7 @@ func cmdCrash(fs *flag.FlagSet, args []string) {
 				nstable++
 			}
 		}
-		emit("# workload %d mix=%s unstable=%v ops=%d stable-acks=%d disk-events=%d first-crash-point=%d", w, *mix, unstable, len(ops), nstable, len(events), p0)
+		emit("# workload %d mix=%s unstable=%v refused-noise=%v ops=%d stable-acks=%d disk-events=%d first-crash-point=%d", w, *mix, unstable, noise, len(ops), nstable, len(events), p0)
 		for i, o := range ops {
 			emit("# op %d [%d,%d] stable=%v %s", i, o.start, o.ret, o.stable, trunc(o.line))
 		}
@@ -492,6 +589,14 @@ func cmdCrash(fs *flag.FlagSet, args []string) {
 		// crash points: every prefix from p0 on (thinned to maxImages), each with the pending
 		// writes all present, all missing, and each single one missing / alone present
 		cps, total := crashPoints(events, p0, *fromP, *toP, *maxImages, root)
+		// the points right after every stable acknowledgement, whatever the thinning left of them:
+		// what was promised at that moment must be on the disk at that moment
+		for i, o := range ops {
+			if o.stable && o.ret >= p0 && o.ret >= *fromP && o.ret <= *toP && o.ret <= len(events) {
+				cps = append(cps, cp{p: o.ret, desc: fmt.Sprintf("right after the acknowledgement of operation %d, all-pending-written", i)},
+					cp{p: o.ret, dropAll: true, desc: fmt.Sprintf("right after the acknowledgement of operation %d, no-pending-written", i)})
+			}
+		}
 		if *fromP == 0 {
 			// the point right after start-up: nothing but formatting (or recovery) and reads has happened
 			cps = append([]cp{{p: p0, desc: "right after start-up, all-pending-written"}, {p: p0, dropAll: true, desc: "right after start-up, no-pending-written"}}, cps...)
@@ -550,14 +655,14 @@ func cmdCrash(fs *flag.FlagSet, args []string) {
 			rs.d = NewOverlay(*disksz, img)
 			ok := rs.guarded("recover", func() { rs.srv = nfs.MakeNfs(rs.d) })
 			if !ok {
-				emit("# ORACLE C01 recovery-crashed workload seed %d (%s mix)%s: recovery from the image at crash point %d (%s) panicked or hung", wseed, *mix, stage, c.p, c.desc)
+				emit("# ORACLE C01 recovery-crashed workload seed %d (%s mix)%s: recovery from the image at crash point %d (%s) panicked or hung", wseed, mixd, stage, c.p, c.desc)
 				return -1
 			}
 			rs.srv.Unstable = unstable
 			rootfh := fh.MkRootFh3().Data
 			rs.objs[hx(rootfh)] = &objInfo{fh: rootfh, kind: 2}
 			rs.dirs[hx(rootfh)] = &dirInfo{names: map[string][]byte{}}
-			where := fmt.Sprintf("workload seed %d (%s mix)%s crash point %d (%s)", wseed, *mix, stage, c.p, c.desc)
+			where := fmt.Sprintf("workload seed %d (%s mix)%s crash point %d (%s)", wseed, mixd, stage, c.p, c.desc)
 			curWhere = where
 			// what start-up put into the caches must be what the journal says is on the disk
 			rs.coherence()
@@ -567,7 +672,7 @@ func cmdCrash(fs *flag.FlagSet, args []string) {
 			}
 			got := rs.dumpTree()
 			if trouble != "" {
-				emit("# ORACLE C01 recovered-server-crashes workload seed %d (%s mix): after recovery at crash point %d (%s) reading the tree back: %s", wseed, *mix, c.p, c.desc, trunc(trouble))
+				emit("# ORACLE C01 recovered-server-crashes workload seed %d (%s mix): after recovery at crash point %d (%s) reading the tree back: %s", wseed, mixd, c.p, c.desc, trunc(trouble))
 			}
 			match := -1
 			for k := kmax; k >= kmin; k-- {
@@ -597,11 +702,11 @@ func cmdCrash(fs *flag.FlagSet, args []string) {
 				if *mix == "data" {
 					prop = "C07"
 				}
-				emit("# ORACLE %s %s workload seed %d (%s mix)%s: crash after %d of %d disk events (%s): the recovered file system %s; allowed: the state after k operations, %d <= k <= %d; %s", prop, key, wseed, *mix, stage, c.p, len(events), c.desc, what, kmin, kmax, firstDiff(dumps[kmin], got))
+				emit("# ORACLE %s %s workload seed %d (%s mix)%s: crash after %d of %d disk events (%s): the recovered file system %s; allowed: the state after k operations, %d <= k <= %d; %s", prop, key, wseed, mixd, stage, c.p, len(events), c.desc, what, kmin, kmax, firstDiff(dumps[kmin], got))
 			} else {
 				// the recovered server keeps serving
 				if why := rs.postCrashProbe(); why != "" {
-					emit("# ORACLE C01 recovered-server-broken workload seed %d (%s mix): after recovery at crash point %d (%s), state after %d operations: %s", wseed, *mix, c.p, c.desc, match, why)
+					emit("# ORACLE C01 recovered-server-broken workload seed %d (%s mix): after recovery at crash point %d (%s), state after %d operations: %s", wseed, mixd, c.p, c.desc, match, why)
 				}
 				if v := rs.writeVerf(); *mix == "data" && bytes.Equal(v, verfA) && len(v) > 0 {
 					emit("# ORACLE C07 verifier-unchanged the recovered server reports the write verifier of the crashed instance")
@@ -642,9 +747,9 @@ func cmdCrash(fs *flag.FlagSet, args []string) {
 			if mix2 == "free" {
 				mix2 = "meta"
 			}
-			ops2, dumps2, sb2 := crashWorkload(wseed+uint64(c1.p)*7919, mix2, *nops/2+4, *disksz, unstable, rec2)
+			ops2, dumps2, sb2 := crashWorkload(wseed+uint64(c1.p)*7919, mix2, *nops/2+4, *disksz, unstable, rec2, false)
 			if sb2.dead {
-				emit("# ORACLE C01 recovered-server-crashes workload seed %d (%s mix): the server restarted on the image of crash point %d (%s) crashed while serving further operations", wseed, *mix, c1.p, c1.desc)
+				emit("# ORACLE C01 recovered-server-crashes workload seed %d (%s mix): the server restarted on the image of crash point %d (%s) crashed while serving further operations", wseed, mixd, c1.p, c1.desc)
 				continue
 			}
 			sb2.waitIdle()
